@@ -162,54 +162,18 @@ func (w *PackWriter) save() error {
 
 	// Pack files are content addressable. Each file is checked
 	// individually — if it already exists on disk, skip creating it.
-	idxPath := fmt.Sprintf("%s.idx", base)
-	exists, err := fileExists(w.fs, idxPath)
-	if err != nil {
+	if err := w.saveSidecar(fmt.Sprintf("%s.idx", base), func(f io.Writer) error { return w.encodeIdx(f, h) }); err != nil {
 		return err
-	}
-	if !exists {
-		idx, err := w.fs.Create(idxPath)
-		if err != nil {
-			return err
-		}
-
-		if err := w.encodeIdx(idx, h); err != nil {
-			_ = idx.Close()
-			return err
-		}
-
-		if err := idx.Close(); err != nil {
-			return err
-		}
-		fixPermissions(w.fs, idxPath)
 	}
 
 	if w.writeRev {
-		revPath := fmt.Sprintf("%s.rev", base)
-		exists, err := fileExists(w.fs, revPath)
-		if err != nil {
+		if err := w.saveSidecar(fmt.Sprintf("%s.rev", base), func(f io.Writer) error { return w.encodeRev(f, h) }); err != nil {
 			return err
-		}
-		if !exists {
-			rev, err := w.fs.Create(revPath)
-			if err != nil {
-				return err
-			}
-
-			if err := w.encodeRev(rev, h); err != nil {
-				_ = rev.Close()
-				return err
-			}
-
-			if err := rev.Close(); err != nil {
-				return err
-			}
-			fixPermissions(w.fs, revPath)
 		}
 	}
 
 	packPath := fmt.Sprintf("%s.pack", base)
-	exists, err = fileExists(w.fs, packPath)
+	exists, err := fileExists(w.fs, packPath)
 	if err != nil {
 		return err
 	}
@@ -232,17 +196,11 @@ func (w *PackWriter) save() error {
 			return err
 		}
 		if !promisorExists {
-			f, err := w.fs.Create(promisorPath)
-			if err != nil {
+			marker := *w.promisor
+			if err := w.writeSidecar(promisorPath, func(f io.Writer) error {
+				_, err := io.WriteString(f, marker)
 				return err
-			}
-
-			if _, err := io.WriteString(f, *w.promisor); err != nil {
-				_ = f.Close()
-				return err
-			}
-
-			if err := f.Close(); err != nil {
+			}); err != nil {
 				return err
 			}
 		}
@@ -258,6 +216,48 @@ func (w *PackWriter) save() error {
 		return w.clean()
 	}
 
+	return nil
+}
+
+// saveSidecar writes one of the files that accompany a pack (.idx, .rev),
+// unless it is already there: pack files are content addressable, so a file
+// of that name has that content.
+func (w *PackWriter) saveSidecar(path string, encode func(io.Writer) error) error {
+	exists, err := fileExists(w.fs, path)
+	if err != nil || exists {
+		return err
+	}
+	if err := w.writeSidecar(path, encode); err != nil {
+		return err
+	}
+	fixPermissions(w.fs, path)
+	return nil
+}
+
+// writeSidecar writes path through a temporary file next to it and renames
+// that into place only when it is complete. Written in place, a failed write
+// (or a process that stops) would leave a torn file under its final name,
+// and because an existing file is taken for a finished one, the next writer
+// of the same pack would publish the pack next to it: every object of the
+// pack unreadable, and a repack would then delete the packs they came from.
+func (w *PackWriter) writeSidecar(path string, encode func(io.Writer) error) error {
+	tmp, err := w.fs.TempFile(w.fs.Join(objectsPath, packPath), "tmp_pack_")
+	if err != nil {
+		return err
+	}
+	if err := encode(tmp); err != nil {
+		_ = tmp.Close()
+		_ = w.fs.Remove(tmp.Name())
+		return err
+	}
+	if err := tmp.Close(); err != nil {
+		_ = w.fs.Remove(tmp.Name())
+		return err
+	}
+	if err := w.fs.Rename(tmp.Name(), path); err != nil {
+		_ = w.fs.Remove(tmp.Name())
+		return err
+	}
 	return nil
 }
 
